@@ -122,12 +122,14 @@ func runProb(r *Report, prop, typ, rp string) {
 		if typ == "bloomFilter" {
 			// first script argument is the stored hash count string
 			okStr := false
-			for _, b := range fn.Blocks {
-				for _, in := range b.Instrs {
-					if c, ok := in.(*ssa.Call); ok && CalleeName(c) == "builtin.append" {
-						for _, e := range variadicElems(c.Call.Args[1]) {
-							if IsFieldLoad(e, T, "hashIterationString") {
-								okStr = true
+			for _, f := range append([]*ssa.Function{fn}, argsHelpers(fn)...) {
+				for _, b := range f.Blocks {
+					for _, in := range b.Instrs {
+						if c, ok := in.(*ssa.Call); ok && CalleeName(c) == "builtin.append" {
+							for _, e := range variadicElems(c.Call.Args[1]) {
+								if IsFieldLoad(e, T, "hashIterationString") {
+									okStr = true
+								}
 							}
 						}
 					}
@@ -290,4 +292,22 @@ func dedupSorted(s []string) []string {
 	t := append([]string{}, s...)
 	sort.Strings(t)
 	return dedup(t)
+}
+
+// argsHelpers: unexported functions of the package called from fn that return the []string handed
+// to a script execution in fn (the ARGV construction extracted into a helper).
+func argsHelpers(fn *ssa.Function) []*ssa.Function {
+	var out []*ssa.Function
+	for _, s := range CallSites(fn, "rueidis.(*Lua).Exec") {
+		args := s.Call().Common().Args
+		if len(args) < 5 {
+			continue
+		}
+		if c, ok := args[4].(*ssa.Call); ok {
+			if h := c.Call.StaticCallee(); h != nil && h.Blocks != nil && h.Pkg == fn.Pkg && !isExportedName(h.Name()) {
+				out = append(out, h)
+			}
+		}
+	}
+	return out
 }
